@@ -117,3 +117,12 @@ M("c13-version", "C13", "decoder/adsb.py", "    version = common.bin2int(msgbin[
 M("c13-talt", "C13", "decoder/bds/bds62.py", "    alt = -1000 + common.bin2int(mb[15:25]) * 100", "    alt = -1000 + common.bin2int(mb[15:25]) * 100 if mb[15:25] != '0000000001' else 0")
 M("c13-label", "C13", "decoder/bds/bds62.py", '        alt_source = "Holding mode"', '        alt_source = "MCP/FCU"')
 M("c13-nicc", "C13", "decoder/adsb.py", "    nic_c = int(msgbin[51])", "    nic_c = int(msgbin[52])")
+
+# ---- C18
+M("c18-topbit", "C18", "decoder/uplink.py", "    topbit = 0b1 << (len(msg) * 4 - 25)", "    topbit = 0b1 << (len(msg) * 4 - 24)")
+M("c18-e0", "C18", "decoder/uplink.py", "                RRS = ((mbytes[2] & 0x1) << 3) | ((mbytes[3] & 0xE0) >> 5)\n                BDS2 = RRS\n            else:", "                RRS = ((mbytes[2] & 0x1) << 3) | ((mbytes[3] & 0xC0) >> 5)\n                BDS2 = RRS\n            else:")
+M("c18-di", "C18", "decoder/uplink.py", "        if (di == 1 or di == 7):\n            # LOS\n            if ((mbytes[3] & 0x40) >> 6) == 1:\n                lockout = True\n        elif di == 3:", "        if (di == 1 or di == 3):\n            # LOS\n            if ((mbytes[3] & 0x40) >> 6) == 1:\n                lockout = True\n        elif di == 7:")
+M("c18-si32", "C18", "decoder/uplink.py", '            3: "SI" + str(icField + 32),\n            4: "SI" + str(icField + 48),\n        }\n        IC = ic_switcher.get(codeLabel, "")\n\n    if UF in', '            3: "SI" + str(icField + 31),\n            4: "SI" + str(icField + 48),\n        }\n        IC = ic_switcher.get(codeLabel, "")\n\n    if UF in')
+M("c18-fields-los", "C18", "decoder/uplink.py", "        elif di == 1:\n            # II\n            II = (mbytes[2] >> 4) & 0xF\n            IC = \"II\" + str(II)\n            if ((mbytes[3] & 0x40) >> 6) == 1:", "        elif di == 1:\n            # II\n            II = (mbytes[2] >> 4) & 0xF\n            IC = \"II\" + str(II)\n            if ((mbytes[3] & 0x80) >> 7) == 1:")
+M("c18-pr", "C18", "decoder/uplink.py", "    if uf(msg) == 11:\n        return ((mbytes[0] & 0x7) << 1) | ((mbytes[1] & 0x80) >> 7)", "    if uf(msg) == 11:\n        return ((mbytes[0] & 0x3) << 1) | ((mbytes[1] & 0x80) >> 7)")
+M("c18-uf24", "C18", "decoder/uplink.py", "    return min(common.bin2int(ufbin[0:5]), 24)", "    return min(common.bin2int(ufbin[0:5]), 25)")
